@@ -439,6 +439,10 @@ def evaluate(world, case, neutral=False):
     """Run one case on the real code and evaluate every clause.  -> (problems, info)"""
     tree = world.tree(case['layout'], neutral)
     path = effective(case, neutral)
+    if '{ABSTOP' in path:
+        # the absolute location of the scratch tree, only known at run time (hostile paths that name outside files absolutely)
+        from urllib.parse import quote as _q
+        path = path.replace('{ABSTOPENC}', _q(tree['top'].lstrip('/'), safe='')).replace('{ABSTOP}', tree['top'].lstrip('/'))
     mount = case['mount']
     counters = {}
     info = {'counters': counters, 'evaluated': [], 'status': None}
@@ -729,7 +733,11 @@ def corpus():
                '..\\secret.txt', '..%5csecret.txt', 'sub/%2e%2e/f10.txt', '%2e/f10.txt', 'sub/..%2f..%2fsecret.txt',
                '%2e%2e/{sib}/x', '%2E%2E/secret.txt', '.%2e/secret.txt', '../../../../../../etc/passwd', '%c0%ae%c0%ae/secret.txt',
                '..;/secret.txt', 'sub2/../../{sib}/index.html', '{sib}/x', 'secret.txt', '%252e%252e/{sib}/x',
-               'p%252541.txt', 'sub/./in.txt', 'sub//in.txt']
+               'p%252541.txt', 'sub/./in.txt', 'sub//in.txt',
+               # an encoded slash in front of an ABSOLUTE path: after unquoting, os.path.join() would discard the document root
+               '%2F{ABSTOP}/{par}/secret.txt', '%2f{ABSTOP}/{par}/{sib}/x', '%2F{ABSTOPENC}%2F{par}%2Fsecret.txt', '%2F{ABSTOP}/{par}/{sib}/',
+               '%2F{ABSTOP}/secret2.txt', '%2F{ABSTOP}/{par}/{doc}/f10.txt', 'sub/%2F{ABSTOP}/{par}/secret.txt', '%2F%2F{ABSTOP}/{par}/secret.txt',
+               '%252F{ABSTOP}/{par}/secret.txt']
     for fe in ('http', 'direct'):
         for li in (0, 1):
             for dl in (False, True):
